@@ -7,7 +7,7 @@
    distinct values and prefix-free indices, target values have the type their action expects.
    Only statements; proofs in theories/SchcRoundtrip.v (built on SchcCodec, SchcRules, ParserTiling). *)
 From Coq Require Import ZArith List Bool.
-From MS Require Import PyBase Bits Schc SchcSpec SchcCodec SchcRules SchcRoundtrip Parsers ParserTiling Compute RfcChecksum StackRoundtrip Buffer BufferAbs SchcBytes SchcRefine ParserBytes ParserRefine EndToEnd ComputeBytes ComputeRefine ManagerBytes ManagerRefine.
+From MS Require Import PyBase Bits Schc SchcSpec SchcCodec SchcRules SchcRoundtrip Parsers ParserTiling Compute RfcChecksum StackRoundtrip Buffer BufferAbs SchcBytes SchcRefine ParserBytes ParserRefine EndToEnd ComputeBytes ComputeRefine ManagerBytes ManagerRefine StackRoundtripSctp.
 Import ListNotations.
 Open Scope Z_scope.
 
@@ -169,6 +169,92 @@ Print Assumptions c01_roundtrip_plain.
 Print Assumptions c01_roundtrip_compute_sort.
 Print Assumptions c01_roundtrip_compute.
 Print Assumptions c01_no_compression.
+(* the same for the stacks that carry SCTP: bare SCTP (CRC-32c checksum over the packet with the checksum field zeroed, RFC 9260),
+   IPv6 / IPv4 in front of SCTP, and SCTP carried in UDP (the library designates it by UDP port 132) under IPv6 / IPv4, where the UDP
+   checksum is the one over the datagram carrying the CORRECT SCTP checksum: list.sort runs the SCTP checksum first (StackRoundtripSctp.v
+   proves the sorted order for every subset of computed fields).  Any subset of the computable fields may be computed. *)
+Theorem c01_stack_sctp d pd r :
+  pd_dir pd = d -> rule_ok_dec compute_functions d pd r -> spec_rule_applies pd r = true ->
+  sctp_shape (pd_fields pd) -> sctp_correct (pd_fields pd) (pd_payload pd) ->
+  exists s, compress pd r (Some d) = Ok s /\
+            decompress compute_functions s r (Some d) = Ok (concat (map f_val (pd_fields pd)) ++ pd_payload pd).
+Proof. exact (c01_roundtrip_sctp d pd r). Qed.
+Theorem c01_stack_ipv6_sctp d pd r :
+  pd_dir pd = d -> rule_ok_dec compute_functions d pd r -> spec_rule_applies pd r = true ->
+  v6s_shape (pd_fields pd) -> v6s_correct (pd_fields pd) (pd_payload pd) ->
+  exists s, compress pd r (Some d) = Ok s /\
+            decompress compute_functions s r (Some d) = Ok (concat (map f_val (pd_fields pd)) ++ pd_payload pd).
+Proof. exact (c01_roundtrip_ipv6_sctp d pd r). Qed.
+Theorem c01_stack_ipv4_sctp d pd r :
+  pd_dir pd = d -> rule_ok_dec compute_functions d pd r -> spec_rule_applies pd r = true ->
+  v4s_shape (pd_fields pd) -> v4s_correct (pd_fields pd) (pd_payload pd) ->
+  exists s, compress pd r (Some d) = Ok s /\
+            decompress compute_functions s r (Some d) = Ok (concat (map f_val (pd_fields pd)) ++ pd_payload pd).
+Proof. exact (c01_roundtrip_ipv4_sctp d pd r). Qed.
+Theorem c01_stack_ipv6_udp_sctp d pd r :
+  pd_dir pd = d -> rule_ok_dec compute_functions d pd r -> spec_rule_applies pd r = true ->
+  v6us_shape (pd_fields pd) -> v6us_correct (pd_fields pd) (pd_payload pd) ->
+  exists s, compress pd r (Some d) = Ok s /\
+            decompress compute_functions s r (Some d) = Ok (concat (map f_val (pd_fields pd)) ++ pd_payload pd).
+Proof. exact (c01_roundtrip_ipv6_udp_sctp d pd r). Qed.
+Theorem c01_stack_ipv4_udp_sctp d pd r :
+  pd_dir pd = d -> rule_ok_dec compute_functions d pd r -> spec_rule_applies pd r = true ->
+  v4us_shape (pd_fields pd) -> v4us_correct (pd_fields pd) (pd_payload pd) ->
+  exists s, compress pd r (Some d) = Ok s /\
+            decompress compute_functions s r (Some d) = Ok (concat (map f_val (pd_fields pd)) ++ pd_payload pd).
+Proof. exact (c01_roundtrip_ipv4_udp_sctp d pd r). Qed.
+(* ... and from the raw packet Buffer through the byte-level parser, compress and decompress with its compute stage *)
+Theorem c01_bytes_stack_sctp s b bfs bpl r d :
+  canon b -> bside b = LEFT -> canon_rule r -> bfactory s b = Ok (bfs, bpl) ->
+  let pd := abs_pdesc abs (mkbpdesc d bfs bpl) in
+  let r' := abs_rule abs r in
+  rule_ok_dec compute_functions d pd r' -> spec_rule_applies pd r' = true ->
+  sctp_shape (pd_fields pd) -> sctp_correct (pd_fields pd) (pd_payload pd) ->
+  exists x y, bcompress (mkbpdesc d bfs bpl) r (Some d) = Ok x /\ canon x /\
+              bdecompress_c x r (Some d) = Ok y /\ canon y /\ abs y = abs b /\ b_eq y b = Ok true.
+Proof. exact (c01_bytes_sctp s b bfs bpl r d). Qed.
+Theorem c01_bytes_stack_ipv6_sctp s b bfs bpl r d :
+  canon b -> bside b = LEFT -> canon_rule r -> bfactory s b = Ok (bfs, bpl) ->
+  let pd := abs_pdesc abs (mkbpdesc d bfs bpl) in
+  let r' := abs_rule abs r in
+  rule_ok_dec compute_functions d pd r' -> spec_rule_applies pd r' = true ->
+  v6s_shape (pd_fields pd) -> v6s_correct (pd_fields pd) (pd_payload pd) ->
+  exists x y, bcompress (mkbpdesc d bfs bpl) r (Some d) = Ok x /\ canon x /\
+              bdecompress_c x r (Some d) = Ok y /\ canon y /\ abs y = abs b /\ b_eq y b = Ok true.
+Proof. exact (c01_bytes_ipv6_sctp s b bfs bpl r d). Qed.
+Theorem c01_bytes_stack_ipv4_sctp s b bfs bpl r d :
+  canon b -> bside b = LEFT -> canon_rule r -> bfactory s b = Ok (bfs, bpl) ->
+  let pd := abs_pdesc abs (mkbpdesc d bfs bpl) in
+  let r' := abs_rule abs r in
+  rule_ok_dec compute_functions d pd r' -> spec_rule_applies pd r' = true ->
+  v4s_shape (pd_fields pd) -> v4s_correct (pd_fields pd) (pd_payload pd) ->
+  exists x y, bcompress (mkbpdesc d bfs bpl) r (Some d) = Ok x /\ canon x /\
+              bdecompress_c x r (Some d) = Ok y /\ canon y /\ abs y = abs b /\ b_eq y b = Ok true.
+Proof. exact (c01_bytes_ipv4_sctp s b bfs bpl r d). Qed.
+Theorem c01_bytes_stack_ipv6_udp_sctp s b bfs bpl r d :
+  canon b -> bside b = LEFT -> canon_rule r -> bfactory s b = Ok (bfs, bpl) ->
+  let pd := abs_pdesc abs (mkbpdesc d bfs bpl) in
+  let r' := abs_rule abs r in
+  rule_ok_dec compute_functions d pd r' -> spec_rule_applies pd r' = true ->
+  v6us_shape (pd_fields pd) -> v6us_correct (pd_fields pd) (pd_payload pd) ->
+  exists x y, bcompress (mkbpdesc d bfs bpl) r (Some d) = Ok x /\ canon x /\
+              bdecompress_c x r (Some d) = Ok y /\ canon y /\ abs y = abs b /\ b_eq y b = Ok true.
+Proof. exact (c01_bytes_ipv6_udp_sctp s b bfs bpl r d). Qed.
+Theorem c01_bytes_stack_ipv4_udp_sctp s b bfs bpl r d :
+  canon b -> bside b = LEFT -> canon_rule r -> bfactory s b = Ok (bfs, bpl) ->
+  let pd := abs_pdesc abs (mkbpdesc d bfs bpl) in
+  let r' := abs_rule abs r in
+  rule_ok_dec compute_functions d pd r' -> spec_rule_applies pd r' = true ->
+  v4us_shape (pd_fields pd) -> v4us_correct (pd_fields pd) (pd_payload pd) ->
+  exists x y, bcompress (mkbpdesc d bfs bpl) r (Some d) = Ok x /\ canon x /\
+              bdecompress_c x r (Some d) = Ok y /\ canon y /\ abs y = abs b /\ b_eq y b = Ok true.
+Proof. exact (c01_bytes_ipv4_udp_sctp s b bfs bpl r d). Qed.
+(* non-vacuity: concrete packets meeting shape and correctness for each of the five stacks *)
+Example c01_stack_sctp_ex : sctp_shape exs_fields /\ sctp_correct exs_fields exs_pl.
+Proof. exact (conj exs_shape exs_correct). Qed.
+Example c01_stack_ipv6_udp_sctp_ex : v6us_shape ex6us_fields /\ v6us_correct ex6us_fields exs_pl.
+Proof. exact (conj ex6us_shape ex6us_correct). Qed.
+
 Print Assumptions c01_stack_ipv6_udp.
 Print Assumptions c01_stack_ipv4_udp.
 Print Assumptions c01_bytes_roundtrip.
@@ -179,3 +265,13 @@ Print Assumptions c01_manager.
 Print Assumptions c01_stack_tiles.
 Print Assumptions c01_matcher.
 Print Assumptions c01_bytes_manager.
+Print Assumptions c01_stack_sctp.
+Print Assumptions c01_bytes_stack_sctp.
+Print Assumptions c01_stack_ipv6_sctp.
+Print Assumptions c01_bytes_stack_ipv6_sctp.
+Print Assumptions c01_stack_ipv4_sctp.
+Print Assumptions c01_bytes_stack_ipv4_sctp.
+Print Assumptions c01_stack_ipv6_udp_sctp.
+Print Assumptions c01_bytes_stack_ipv6_udp_sctp.
+Print Assumptions c01_stack_ipv4_udp_sctp.
+Print Assumptions c01_bytes_stack_ipv4_udp_sctp.
